@@ -8,8 +8,8 @@ import (
 
 // EstimateExpansion returns a conservative upper bound of the number of tokens
 // the assembler has to handle for this text: every line's tokens multiplied by
-// the bounds of all FOR counts it is nested in, times the largest textual EQU
-// expansion. It is computed with an own, deliberately crude tokenizer; when in
+// the bounds of all FOR counts it is nested in (EQU values are bounded only to
+// bound those counts). It is computed with an own, deliberately crude tokenizer; when in
 // doubt it over-estimates (math.Inf for anything it cannot bound).
 func EstimateExpansion(text string) float64 {
 	type line struct{ toks []string }
@@ -147,7 +147,11 @@ func EstimateExpansion(text string) float64 {
 			return math.Inf(1)
 		}
 	}
-	return total*maxEqu + sumEqu
+	// Textual EQU growth is deliberately NOT part of the bound: the property only
+	// exempts inputs by their FOR counts, so an EQU chain that doubles at every
+	// level must still be handled (or refused) quickly.
+	_, _ = maxEqu, sumEqu
+	return total
 }
 
 func tokenize(s string) []string {
